@@ -642,6 +642,8 @@ SEEDS = [
                                                    's.sel.items.1.e': 'func'}),
     ('select-subquery-from', 'select', {'s.sel.t0.kind': 'subq', 's.sel.where': True}),
     ('select-in-subquery', 'select', {'s.sel.where': True, 's.sel.w': 'insel'}),
+    ('select-in-subquery-where', 'select', {'s.sel.where': True, 's.sel.w': 'insel', 's.sel.w.s.where': True}),
+    ('select-from-subquery-where', 'select', {'s.sel.t0.kind': 'subq', 's.sel.t0.s.where': True}),
     ('select-exists', 'select', {'s.sel.where': True, 's.sel.w': 'exists'}),
     ('select-case', 'select', {'s.sel.items.0.e': 'case', 's.sel.items.0.alias': 'as', 's.sel.items.n': 2}),
     ('select-case-operand-2when', 'select', {'s.sel.items.0.e': 'case', 's.sel.items.0.e.k.operand': True,
